@@ -2,8 +2,14 @@
 several buffers with interleaved last uses, buffers passed to callees."""
 from __future__ import annotations
 
-from exo import proc
+from exo import proc, config
 from exo.libs.memories import DRAM_STACK, DRAM_STATIC
+
+
+@config
+class MemCfg:
+    scale: f32
+    acc: f32
 
 
 @proc
@@ -118,6 +124,59 @@ def stack_mem(n: size, y: f32[n]):
         y[i] = w[i % 2]
 
 
-PROCS = [win_of_alloc, win_of_win, win_in_loop, alloc_in_branch, interleaved, alloc_in_loop, unused_alloc,
+# ---- last use of a buffer in every statement kind that can read one (assignment, reduction, configuration write,
+#      call argument, window statement, condition-free branches, loop bodies)
+@proc
+def last_use_cfg(y: f32[4]):
+    t: f32[4]
+    t[0] = y[0] + 1.0
+    t[1] = y[1] + 1.0
+    y[0] = t[0]
+    MemCfg.scale = t[1]
+
+
+@proc
+def last_use_cfg_branch(k: index, y: f32[4]):
+    t: f32[4]
+    t[2] = y[2] * 2.0
+    t[3] = y[3] * 2.0
+    if k > 0:
+        MemCfg.scale = t[2]
+    else:
+        MemCfg.acc = t[3]
+    y[0] = MemCfg.scale
+
+
+@proc
+def last_use_cfg_loop(n: size, y: f32[4]):
+    t: f32[4]
+    t[2] = y[2] + 3.0
+    for j in seq(0, n):
+        if n > 2:
+            MemCfg.acc = t[2]
+    y[1] = 0.0
+
+
+@proc
+def last_use_reduce(y: f32[4], o: f32[1]):
+    t: f32[4]
+    u: f32[4]
+    for i in seq(0, 4):
+        t[i] = y[i]
+        u[i] = y[i] * 2.0
+    y[0] = u[0]
+    o[0] += t[3]
+
+
+@proc
+def last_use_window_arg(y: f32[4], o: f32[4]):
+    t: f32[8]
+    for i in seq(0, 8):
+        t[i] = 1.0
+    y[0] = t[0]
+    consume(4, t[4:8], o[0:4])
+
+
+PROCS = [last_use_cfg, last_use_cfg_branch, last_use_cfg_loop, last_use_reduce, last_use_window_arg, win_of_alloc, win_of_win, win_in_loop, alloc_in_branch, interleaved, alloc_in_loop, unused_alloc,
          scalar_alloc_call, stack_mem]
-CONFIGS = []
+CONFIGS = [MemCfg]
